@@ -708,6 +708,11 @@ func (s *Server) filterBatchLocked(next jmessages) jmessages {
 			delete(s.call, id)
 			rsp.ch <- req
 			s.log("Received response for callback %q", id)
+		} else if s.allowP && req.err == nil && req.M == "" && (req.E != nil || req.R != nil) {
+			// A well-formed reply that matches no pending push-call (late,
+			// duplicate or unsolicited). Discard it: answering it with an
+			// error could collide with the ID of one of the client's own calls.
+			s.log("Discarding response for unknown callback %q", id)
 		} else {
 			keep = append(keep, req)
 		}
